@@ -340,9 +340,59 @@ var c07Targets = []struct {
 	{"*[]interface{}", func() interface{} { var s []interface{}; return &s }},
 }
 
+// c07ListHists: histories on one list that is longer than MaxIdx+1 to begin with: removals (the
+// storage keeps its capacity), then writes at, just behind and well behind the end - a gap is
+// padded with nulls, and a list that is already longer than MaxIdx+1 does not grow any further
+func c07ListHists(g *Gen, count int, wrap string) {
+	r := g.R
+	for i := 0; i < count; i++ {
+		maxIdx := []int64{3, 3, 4, 8}[r.Intn(4)]
+		n := int(maxIdx) + r.Intn(5)
+		l := make([]interface{}, n)
+		for k := range l {
+			l[k] = randScalar(r)
+		}
+		init := map[string]interface{}{"l": l, "a": randScalar(r)}
+		k := 2 + r.Intn(5)
+		var ops []c12Op
+		cur := n
+		for j := 0; j < k; j++ {
+			switch r.Intn(5) {
+			case 0, 1:
+				if cur > 0 {
+					ops = append(ops, c12Op{Kind: "remove", Name: "l", Idx: r.Intn(cur)})
+					cur--
+				}
+			default:
+				idx := cur + []int{-1, 0, 0, 1, 2}[r.Intn(5)]
+				if idx < 0 {
+					idx = 0
+				}
+				ops = append(ops, c12Op{Kind: "set", Name: "l", Idx: idx, Val: randScalar(r)})
+				if idx >= cur && int64(idx) <= maxIdx {
+					cur = idx + 1
+				}
+			}
+		}
+		probes := []addrT{{"l", cur - 1}, {"l", cur}, {"l", cur + 1}}
+		g.Mark(map[string]interface{}{"sep": ".", "maxidx": maxIdx, "init": encTree(init), "ops": ops})
+		c, ok := c12RunMax(".", maxIdx, init, probes, ops)
+		if !ok {
+			continue
+		}
+		c.Coq = "CHist7 (" + c.Coq + ")"
+		if wrap != "" {
+			c.Coq = wrap + " (" + c.Coq + ")"
+		}
+		c.Tags = append(c.Tags, "hist", "list-hist", fmt.Sprintf("maxidx=%d", maxIdx))
+		g.Add(c)
+	}
+}
+
 func genC07(g *Gen) {
 	r := g.R
 	n := g.N
+	c07ListHists(g, n/4+4, "")
 	tc := TreeCfg{Keys: []string{"a", "b", "l", "0", "2"}, MaxDepth: 3, MaxWidth: 3, PNil: 2, PEmpty: 2}
 
 	// (1) getters and setters with arbitrary names and indices, under a small MaxIdx
@@ -546,6 +596,36 @@ func genC07(g *Gen) {
 	}
 	c08Mode = save
 	g.Wrap = ""
+
+	// (4c) resolver answers that mention the name they are the answer for (an environment variable
+	// holding "[${EXT}]"): the re-entry is a cyclic error; a resolver may absorb one, not one after
+	// the other without end
+	for _, ans := range []string{"[${EXT}]", "{k: ${EXT}}", "${EXT}", "x${EXT}", "[a, [${EXT}]]", "${EXT:d}", "[${OTHER}]"} {
+		ans := ans
+		res := func(name string) (string, parse.Config, error) {
+			switch name {
+			case "EXT":
+				return ans, parse.DefaultConfig, nil
+			case "OTHER":
+				return "[${EXT}]", parse.DefaultConfig, nil
+			}
+			return "", parse.Config{}, ucfg.ErrMissing
+		}
+		opts := []ucfg.Option{ucfg.VarExp, ucfg.PathSep("."), ucfg.Resolve(res)}
+		c07Total(g, "varexp:self-mentioning resolver answer", ans, func() error {
+			c, err := ucfg.NewFrom(map[string]interface{}{"x": "${EXT}", "y": "pre-${EXT}"}, opts...)
+			if err != nil {
+				return err
+			}
+			c.String("x", -1, opts...)
+			c.String("y", -1, opts...)
+			c.Has("x.0", -1, opts...)
+			c.CountField("x")
+			c.FlattenedKeys(opts...)
+			var m map[string]interface{}
+			return c.Unpack(&m, opts...)
+		})
+	}
 
 	// (5) flag values
 	fpieces := []string{"a", "b", ".", "=", "[", "]", "{", "}", ",", ":", "\"", "'", "-1", "0", "99999999999999999999", " ", "$", "{a}", "\\"}
